@@ -9,7 +9,7 @@ import nodecheck
 from nodecheck import Obs, kv, parse_msg, parse_cfg
 
 PROP = "C18"
-MODULES = ["DV.Properties.C18", "DV.Properties.C18Hist", "DV.Properties.C18Stop", "DV.Properties.ConfigTie", "DV.Properties.C18Dpr"]
+MODULES = ["DV.Properties.C18", "DV.Properties.C18Hist", "DV.Properties.C18Stop", "DV.Properties.ConfigTie", "DV.Properties.C18Dpr", "DV.Properties.C18Begin"]
 KEEP = {"OUT": None, "CONN": ["state", "live"], "PEER": ["conn", "reason"], "RES": ["socketsOpen", "workersLive"],
         "STOPPED": None, "RAISE": None, "CRASH": None, "APP": None}
 
